@@ -15,7 +15,7 @@ import VaxisModel.Props.C02Text
 
 namespace VaxisModel.Props.C02Refine
 open VaxisModel.Model.ParserTable VaxisModel.Model.Parser VaxisModel.Model.ParserIO VaxisModel.Model.ParserUtf8
-open VaxisModel.Lemmas.ParserRefine VaxisModel.Lemmas.ParserRefineStep VaxisModel.Lemmas.ParserRefineRun
+open VaxisModel.Lemmas.ParserRefine VaxisModel.Lemmas.ParserRefineCheck VaxisModel.Lemmas.ParserRefineConf VaxisModel.Lemmas.ParserRefineStep VaxisModel.Lemmas.ParserRefineRun
 open VaxisModel.Lemmas.ParserRead VaxisModel.Lemmas.ParserCodec
 
 /-- What the Spec prescribes for a rune stream under the deviations `d`: the items that must be
